@@ -137,6 +137,13 @@ def f_lt2(x, y):
 
 
 @predicate
+def f_gtd(x, k=1):
+    """a parameter with a default: given positionally, or not at all"""
+    PRED_CALLS["f_gtd"] += 1
+    return x.a > k
+
+
+@predicate
 def f_vge(v, k):
     """takes VALUES (attribute / index / call expressions of a variable), falsy ones included, not the objects"""
     PRED_CALLS["f_vge"] += 1
@@ -183,7 +190,7 @@ class CSame(Predicate):
         return self.x.a == self.y.a
 
 
-FPREDS = {"f_gt": f_gt, "f_lt2": f_lt2, "f_ok": f_ok, "f_inner": f_inner, "f_vge": f_vge}
+FPREDS = {"f_gt": f_gt, "f_lt2": f_lt2, "f_ok": f_ok, "f_inner": f_inner, "f_vge": f_vge, "f_gtd": f_gtd}
 CPREDS = {"CGt": CGt, "CSame": CSame}
 # reference (plain Python) meaning of the predicates
 PRED_REF = {
@@ -192,6 +199,7 @@ PRED_REF = {
     "f_ok": lambda x: True,
     "f_inner": lambda x, k: x.a > k,
     "f_vge": lambda v, k: v >= k,
+    "f_gtd": lambda x, k=1: x.a > k,
     "CGt": lambda x, k: x.a > k,
     "CSame": lambda x, y: x.a == y.a,
 }
